@@ -2,7 +2,9 @@
    Only ExtrOcamlBasic: nat, positive, N, Z stay inductive types.  Run coqc from /verif/ocaml. *)
 From Coq Require Import ExtrOcamlBasic.
 From Model Require Import Engine.
+From Spec Require Import FindSpec.
 Extraction Language OCaml.
 Extraction "model.ml" compile_ast run_commands run_find replace_output canon_env canon_value
   check_ok eval_expr run_program init_pstate transform_env splice itoa_nat itoa_Z atoi
-  find_matches exprs_to_list pstmts_to_list vm_fuel_default.
+  find_matches exprs_to_list pstmts_to_list vm_fuel_default
+  resolve_program init_gstate spec_find_all.
